@@ -28,7 +28,7 @@ ASSUMPTIONS = [
 DEPTH = {"quick": 3, "thorough": 4}
 T0 = 1_700_000_000.0
 MODS = [("same", 1.0), ("same", 3600.0), ("other", 0.0), ("other", 1.0), ("other", 3600.0), ("touch", 1.0), ("touch", 3600.0), ("restore", 1.0)]
-FORMS = ["etag", "lm", "both", "list", "weak", "weak-list", "weak-list-nospace", "star", "both-reversed", "head:etag", "head:both-reversed", "head:star"]
+FORMS = ["etag", "lm", "both", "list", "weak", "weak-list", "weak-list-nospace", "star", "both-reversed", "head:etag", "head:both-reversed", "head:star", "list-20", "weak-list-40"]
 
 
 class VStat:
@@ -166,6 +166,10 @@ def validator_headers(form, v):
     form = form.split(":")[-1]
     if form == "both-reversed":
         return [("If-Modified-Since", lm), ("If-None-Match", et)]
+    if form == "list-20":  # a long list with the tag at the end
+        return [("If-None-Match", ", ".join([f'"other{i}"' for i in range(19)] + [et]))]
+    if form == "weak-list-40":
+        return [("If-None-Match", ",".join([f'W/"o{i}"' for i in range(39)] + ["W/" + et]))]
     if form == "etag":
         return [("If-None-Match", et)]
     if form == "lm":
@@ -319,13 +323,51 @@ def thread_pairs(r, kind, tier):
 
 def shards(tier, seed):
     n = 32 if tier == "quick" else 64
-    return [("hist", k, n) for k in range(n)] + [("threads", "Files"), ("threads", "Pages")]
+    return [("hist", k, n) for k in range(n)] + [("threads", "Files"), ("threads", "Pages"), ("restart",)]
+
+
+def run_shard_fresh(desc, tier):
+    """The two halves of the restart family, each in an interpreter of its own (with its own hash seed)."""
+    r = R()
+    w = World()
+    try:
+        if desc[0] == "restart-issue":
+            for key in w.apps:
+                res = w.request(key, [])
+                r.add("validators", (key, res.header("etag"), res.header("last-modified")))
+        else:
+            issued = {tuple(k): (et, lm) for k, et, lm in desc[1]}
+            for key in w.apps:
+                et, lm = issued[key]
+                for form in ("etag", "weak", "list", "both", "lm"):
+                    res = w.request(key, validator_headers(form, {"etag": et, "lm": lm}))
+                    r.count("evaluations")
+                    r.count("distinct_nontrivial")
+                    if res.status != 304:
+                        r.violation(f"restart:not-revalidated:{form}", {"restart": True, "app": list(key), "form": form},
+                                    f"{key[0]} {key[1]}: validators ({form}) issued by one server process (ETag {et}) presented to another process serving the same unchanged file: status {res.status}, that process announces ETag {w.request(key, []).header('etag')}")
+    finally:
+        w.close()
+    return r
 
 
 def run_shard(desc, tier):
     r = R()
     if desc[0] == "threads":
         thread_pairs(r, desc[1], tier)
+        return r
+    if desc[0] == "restart":
+        # validators issued by one server process are honoured by another one (pre-forked workers, a restart): the two halves run
+        # in two fresh interpreters with different hash seeds, the file (same bytes, same times) is unchanged
+        from ..core import fresh
+        a = fresh.call(__name__, ("restart-issue",), tier, env={"PYTHONHASHSEED": "11"})
+        r.merge(a)
+        issued = sorted(a.sets.get("validators", ()))
+        if not a.notes:
+            b = fresh.call(__name__, ("restart-check", [[list(k), et, lm] for k, et, lm in issued]), tier, env={"PYTHONHASHSEED": "22"})
+            r.merge(b)
+        r.count("states", 2)
+        r.sample({"restart": "ETag and Last-Modified issued under PYTHONHASHSEED=11, presented under PYTHONHASHSEED=22"})
         return r
     _, k, n = desc
     states = set()
@@ -359,6 +401,9 @@ def finish(merged, tier):
 
 def replay(w):
     r = R()
+    if w.get("restart"):
+        rr = run_shard(("restart",), "quick")
+        return bool(rr.viol), {"violations": sorted(rr.viol)}
     if "threads" in w:
         thread_pairs(r, w["threads"], "quick")
         return bool(r.viol), {"violations": sorted(r.viol), "texts": [v[2][:300] for v in r.viol.values()]}
